@@ -262,7 +262,7 @@ func checkC11(c C11Case) *Failure {
 		if err != nil || len(lval) != 1 {
 			return failf("step %d: loss unreadable", si)
 		}
-		if math.Abs(lval[0]-L.V) > 1e-9*math.Max(1, math.Abs(L.V)) {
+		if !(math.Abs(lval[0]-L.V) <= 1e-9*math.Max(1, math.Abs(L.V))) {
 			return failf("step %d: loss = %v, defined value at the current weights = %v", si, lval[0], L.V)
 		}
 		if err := tensor.BackPropagate(l); err != nil {
